@@ -128,7 +128,10 @@ def build_cfg(case: Dict) -> Dict:
     h0["start_up_duration"] = h0["shut_down_duration"] = int(case.get("pd", 0))
     services, apps = [], []
     if case.get("declare"):
-        (services if kind == "service" else apps).append({"type": typ})
+        entry = {"type": typ}
+        if case.get("fdur") is not None:  # documented common option (common_configuration.rst), independent of the other durations
+            entry["options"] = {"fixing_duration": int(case["fdur"])}
+        (services if kind == "service" else apps).append(entry)
     for k, t in case.get("extra", []):
         if t == typ or {typ, t} == {"c2-server", "c2-beacon"}:
             continue  # C2 server and beacon on ONE host answer each other's keep-alives without end; not a lifecycle question
@@ -455,6 +458,8 @@ def _run(case, res, game, sim, node, peer, sm, spy, kind, typ, ops, base):
     rd = case.get("rd")
     if kind == "service" and rd is not None and not case.get("declare") and cur() is not None:
         cur().restart_duration = rd
+    if kind == "application" and case.get("idur") is not None and cur() is not None:
+        cur().install_duration = int(case["idur"])  # public field "How long it takes to install the application"
     try:
         peer.ping(IP0)
         if typ == "c2-beacon" and cur() is not None:
@@ -579,6 +584,11 @@ def _run(case, res, game, sim, node, peer, sm, spy, kind, typ, ops, base):
     def tick_op(when) -> bool:
         nonlocal pending, m_state, fixp
         prev_ns, on_before = node.operating_state, node_on()
+        if pending is None and m_state in ("RESTARTING", "INSTALLING"):
+            # a timed transition entered by a path that did not register it (component-level restart on a node that is not ON,
+            # a power cycle ...): its completion is still its own; no duration is asserted for it
+            what = "restart" if m_state == "RESTARTING" else "install"
+            pending = {"what": what, "state": m_state, "d": 0, "ticks": 0, "clean": False, "base": None}
         if not do_tick(when):
             return False
         if fixp is not None:
@@ -766,6 +776,27 @@ def _run(case, res, game, sim, node, peer, sm, spy, kind, typ, ops, base):
             if state() != m_state:
                 res.violate(f"payload-changed-operating-state:{kind}:{m_state}->{state()}", when)
                 m_state = state()
+
+        elif k == "direct_install":
+            # Application.install() on the installed, CLOSED instance ("being installed or updated"): a timed installation that
+            # must last the instance's OWN install_duration, whatever its other durations are
+            x = cur()
+            if kind != "application" or x is None or m_state != "CLOSED" or not node_on():
+                res.label("direct-install-skipped")
+                continue
+            d = int(x.install_duration)
+            try:
+                x.install()
+            except Exception as e:
+                res.violate(f"raise:direct_install:{exc_sig(e)}", f"{when}: {exc_msg(e)}")
+                return
+            obs = state()
+            if obs not in ("INSTALLING", "RUNNING"):
+                res.violate(f"wrong-target-state:application:install():CLOSED->{obs}", when)
+            if obs == "INSTALLING":
+                pending = {"what": "install", "state": "INSTALLING", "d": d, "ticks": 0, "clean": True, "base": None}
+                res.label(f"direct-install:d={d}:fix={x.config.fixing_duration}")
+            m_state = obs
 
         elif k == "scan_port":
             # the peer's nmap scans the target software's own (port, protocol); the scanned host's nmap answers
@@ -1021,7 +1052,8 @@ def ops_strategy(kind: str, max_len: int, typ: Optional[str] = None):
         return st.integers(3, max_len).flatmap(lambda n: st.lists(st.one_of(verbs, verbs, verbs, *common), min_size=n, max_size=n))
     verbs = st.sampled_from(APP_VERBS).map(lambda v: ["req", v])
     return st.integers(3, max_len).flatmap(
-        lambda n: st.lists(st.one_of(verbs, verbs, st.just(["install"]), st.just(["uninstall"]), *common), min_size=n, max_size=n))
+        lambda n: st.lists(st.one_of(verbs, verbs, st.just(["install"]), st.just(["uninstall"]), st.just(["direct_install"]),
+                                     *common), min_size=n, max_size=n))
 
 
 @st.composite
@@ -1047,6 +1079,8 @@ def case_strategy(draw, max_len: int = 30):
         "listener": draw(st.sampled_from([False, False, "c2", "port"])),
         "rd": draw(st.sampled_from([None, 0, 1, 2, 3])) if kind == "service" else None,
         "pd": draw(st.sampled_from([0, 0, 1, 2, 3])),
+        "idur": draw(st.sampled_from([None, 0, 1, 3, 4])) if kind == "application" else None,
+        "fdur": draw(st.sampled_from([None, None, 0, 1, 3, 5])) if declare else None,
         "ops": draw(ops_strategy(kind, max_len, typ)),
     }
 
@@ -1182,6 +1216,30 @@ def plain_power_cases():
                                "rd": 2 if kind == "service" else None, "pd": pd, "ops": [list(o) for o in ops]}
 
 
+def own_duration_cases():
+    """install_duration, fixing_duration (and restart_duration) drawn independently, 0 included: every timed transition is
+    measured against ITS OWN configured duration."""
+    for typ in APPS:
+        declarable = typ in EXTRA_APPS or typ in REDECLARABLE
+        for idur in (0, 1, 3, 4):
+            for fdur in ((0, 1, 3, 5) if declarable else (None,)):
+                if fdur == idur:
+                    continue
+                ops = [["req", "close"], ["direct_install"]] + [["tick"]] * (idur + 2) + [["payload"], ["req", "fix"]] + \
+                      [["tick"]] * ((fdur if fdur is not None else 2) + 2) + [["req", "close"], ["direct_install"], ["req", "fix"]] + \
+                      [["tick"]] * (idur + 2) + [["payload"]]
+                yield {"kind": "application", "type": typ, "declare": declarable, "extra": [], "listener": False, "rd": None, "pd": 0,
+                       "idur": idur, "fdur": fdur, "ops": [list(o) for o in ops]}
+    for typ in SERVICES:
+        if not (typ in EXTRA_SERVICES or typ in REDECLARABLE):
+            continue
+        for rd, fdur in ((1, 3), (3, 1), (0, 4), (2, 0), (4, 2)):
+            ops = [["req", "fix"]] + [["tick"]] * (fdur + 2) + [["req", "restart"]] + [["tick"]] * (rd + 2) + \
+                  [["req", "fix"], ["req", "restart"]] + [["tick"]] * (max(rd, fdur) + 2) + [["payload"]]
+            yield {"kind": "service", "type": typ, "declare": True, "extra": [], "listener": False, "rd": rd, "pd": 0,
+                   "fdur": fdur, "ops": [list(o) for o in ops]}
+
+
 def interleave_cases():
     """A timed transition with one unrelated op interleaved at each position (completion tick vs interference-free baseline)."""
     for typ in SERVICES:
@@ -1276,6 +1334,7 @@ def worker(ctx: Ctx):
     enum_run(ctx, tag(state_sweep_cases()), run_case)
     enum_run(ctx, tag(interleave_cases()), run_case)
     enum_run(ctx, tag(interrupt_cases()), run_case)
+    enum_run(ctx, tag(own_duration_cases()), run_case)
     enum_run(ctx, tag(shared_port_cases()), run_case)
     enum_run(ctx, tag(power_transition_cases()), run_case)
     enum_run(ctx, tag(plain_power_cases()), run_case)
